@@ -129,6 +129,63 @@ def conformance_case(arg):
     return nvals, viols
 
 
+def backends_vs_dense(net, label):
+    """every back-end compiled (sparse, Odeint, the CUDA sources on the host) and executed on the same three states;
+    the first and third state leave mu and gamma at their generated defaults (-1: "compute them from the
+    abundances"), so the code that fills them in is part of what must agree.  Compared per system with dense."""
+    from ..harness import oderun as OR
+    from ..harness.render import render
+    from ..ctext.stmts import read_macros
+
+    try:
+        fd = render(net, "dense", OR.TEMPLATES_CVODE)
+        mac = read_macros(fd["include/naunet_macros.h"])
+        neq = mac.value("NEQUATIONS")
+    except Exception:
+        return 0, []
+    yvals = [[0.5 + ((7 * i + 3 * g) % 11) / 8.0 for i in range(neq)] for g in range(3)]
+    if "IDX_TGAS" in mac.text:
+        for yv, T in zip(yvals, (8.0e3, 2.5e4, 1.2e4)):
+            yv[mac.value("IDX_TGAS")] = T
+    base = {"nH": 1e4, "Tgas": 50.0, "zeta": 1.3e-17, "Av": 1.0, "omega": 0.5}
+    plist = [dict(base, Tgas=50.0, nH=1e4, zeta=1.3e-17, mu=-1.0, gamma=-1.0), dict(base, Tgas=220.0, nH=3e5, zeta=5e-16, mu=1.3, gamma=1.6), dict(base, Tgas=15.0, nH=2e3, zeta=2e-18, mu=-1.0, gamma=-1.0)]
+    rd = OR.build_and_run(fd, "dense", yvals, plist)
+    if "error" in rd:
+        return 0, []
+    out = []
+    n = 0
+    for b in ("sparse", "rosenbrock4", "cusparse"):
+        try:
+            fb = render(net, b, None if b == "cusparse" else OR.TEMPLATES_ODEINT if b == "rosenbrock4" else OR.TEMPLATES_CVODE)
+        except Exception:
+            continue
+        rb = OR.build_and_run(fb, b, yvals, plist)
+        case = dict(label, backend=b, executed=True)
+        if "error" in rb:
+            kind = "sanitizer-or-abort" if rb["error"] == "runtime" else "compile"
+            out.append((f"C03:executed:{b}:{kind}", f"{b} sources compiled and executed: {rb['detail'][:300]}", case))
+            continue
+        n += 1
+        bad = None
+        for g, (a, c) in enumerate(zip(rd["runs"], rb["runs"])):
+            for i, (x, y) in enumerate(zip(a["ydot"], c["ydot"])):
+                if not _close(x, y):
+                    bad = ("ydot", f"system {g}{' (mu, gamma left at their defaults)' if g != 1 else ''}: {b} gives ydot[{i}] = {y!r}, dense gives {x!r} for the same state")
+                    break
+            if bad:
+                break
+            for (r, cc), x in a["jac"].items():
+                y = c["jac"].get((r, cc), 0.0)
+                if not _close(x, y):
+                    bad = ("jac", f"system {g}{' (mu, gamma left at their defaults)' if g != 1 else ''}: {b} gives J[{r}][{cc}] = {y!r}, dense gives {x!r} for the same state")
+                    break
+            if bad:
+                break
+        if bad:
+            out.append((f"C03:{b}-vs-dense:{bad[0]}", bad[1], case))
+    return n, out
+
+
 def cuda_vs_dense(net, label, rng):
     """The cuSPARSE sources executed on the host (kernels launched thread by thread over a batch of three systems
     with different abundances and parameters, grid smaller than the batch) must give, system by system, the values
@@ -195,7 +252,8 @@ def cuda_fixed_case(i):
             Reaction(["H2", "CR"], ["H", "H"], -1.0, -1.0, 0.5, 0.0, 0.0, ReactionType.GAS_COSMICRAY, 3),
         ]
         net = Network(reacs, cooling=[[], ["CIC_HI"], ["CIC_HI", "RC_HII"]][i], required_species=["H", "e-", "H+", "H2"])
-    return 1, cuda_vs_dense(net, {"fixed": i}, random.Random(0))
+    n, viols = backends_vs_dense(net, {"fixed": i})
+    return 1 + n, cuda_vs_dense(net, {"fixed": i}, random.Random(0)) + viols
 
 
 def _close(x, y):
